@@ -130,6 +130,7 @@ struct Inst {
   int ext = -1;  // island id of the caller buffer
   std::vector<uint8_t> mirror;
   Inst *twin = nullptr;
+  bool alias_only = false;  // this caller only ever uses the deprecated asm_get_buffer() to reach the code
   bool faulted = false;  // a fault fired on this instance earlier in the run
   bool busy = false;     // fine mode: a call on this instance is in flight on its (parked) thread
 };
@@ -221,7 +222,7 @@ struct CodeView {
 static CodeView view_code(Run &R, TaskRt &T, Inst &I, bool alias = false) {
   CodeView v;
   void *code = nullptr;
-  int j = in_lib(R, T.actx, [&] { code = lib::get_code(I.al, alias); });
+  int j = in_lib(R, T.actx, [&] { code = lib::get_code(I.al, alias || I.alias_only); });
   if (j != J_NONE) {
     v.why = "asm_get_code crashed";
     return v;
@@ -1085,6 +1086,7 @@ static void exec_create(Run &R, TaskRt &T, int ti, int oi, const Op &op) {
     return;
   }
   I.al = al;
+  I.alias_only = op.on;  // plan: this instance's code is only ever reached through the deprecated asm_get_buffer()
   I.m.reset_created(ext, ext ? op.n : 0);
   if (ext) {
     CodeView cv;
